@@ -139,7 +139,7 @@ fn gen_cfg(bytes: &[u8], jumps: bool) -> Cfg {
 fn check_statements(ctx: &mut Ctx, section: &str, prog: &[S]) -> Vec<Violation> {
     let src_all = render(prog);
     // memory requests (huge repetition counts) are outside every property: consult the reference first
-    if src_all.contains(" * ") {
+    if !prog.iter().any(|s| matches!(s, S::Raw(_))) {
         let rr = reference(prog, 300_000);
         if memory_risk(&rr, &src_all) {
             ctx.excluded(1);
